@@ -32,6 +32,8 @@ REQUIRED_REFS = {"tie_prev", "tie_next", "slur_starts", "slur_stops", "tuplet_st
 
 
 def run(ctx):
+    from ..rules import round5 as _R5
+    _R5.rule_recursion_forwards(ctx, ['partitura.score:unfold_part_maximal', 'partitura.score:unfold_part_minimal'])
     from ..rules import ownership as _OW5
     _OW5.rule_shallow_copy_shares_lists(ctx)
     _OW5.rule_field_owner(ctx)
